@@ -170,6 +170,9 @@ def run_tlc(module, cfg_path=None, cfg=None, workers=None, simulate=None, depth=
         if dfs:
             jopts.append("-Dtlc2.tool.queue.IStateQueue=StateDeque")
         jopts.append("-Xss64m")
+        jtmp = os.path.join(d, "jtmp")           # TLC's own temporary directories (tlc-<n>) go with the scratch copy
+        os.makedirs(jtmp, exist_ok=True)
+        jopts.append("-Djava.io.tmpdir=" + jtmp)
         e["JAVA_TOOL_OPTIONS"] = " ".join(jopts)
         t = time.time()
         try:
